@@ -222,20 +222,18 @@ class Prerequisite:
         self._cached_satisfied = None
         if '|' in expr:
             # Make a Python expression so we can eval() the logic.
-            for t_output in self._satisfied:
-                # Use '\b' in case one task name is a substring of another
-                # and escape special chars ('.', timezone '+') in task IDs.
-                msg = self.MESSAGE_TEMPLATE % t_output
-                if msg[0] == '-':
-                    # -ve cycles: \b needs to be to the right of the `-` char.
-                    pattern = fr"-\b{re.escape(msg[1:])}\b"
-                else:
-                    pattern = fr"\b{re.escape(msg)}\b"
-                expr = re.sub(
-                    pattern,
-                    self.SATISFIED_TEMPLATE % t_output,
-                    expr
-                )
+            # Replace whole operands only (split on operators/parentheses)
+            # in case one task ID or message is a substring of another, or
+            # a message starts or ends with a non-word character.
+            lookup = {
+                self.MESSAGE_TEMPLATE % t_output:
+                    self.SATISFIED_TEMPLATE % t_output
+                for t_output in self._satisfied
+            }
+            expr = ''.join(
+                lookup.get(operand.strip(), operand)
+                for operand in re.split(r'([()|&])', expr)
+            )
 
             self.conditional_expression = expr
 
